@@ -348,3 +348,5 @@ Example c03_user_error_witness :
       [Counter; Timer; Gauge; Meter; Histogram; Distribution; SetK] = repeat (Some (inl (EIo 5 9))) 7 /\
   ekind EInvalid = InvalidInput /\ ekind (EIo 5 9) = IoError.
 Proof. exact user_error_witness. Qed.
+
+(* Note after the second read-only review of these pins (selftest/audit/REVIEW-2-2026-10-02.md): c03_reported_error_source: 'one of three sources' is an inclusive disjunction (a user conversion that itself returns EInvalid satisfies the first and the third).  c03_sequence_defined is the contrapositive half of c03_sequence_defined_full; c03_user_error_call / _clauses hold by unfolding send_call on AUserErr (they pin the reading). *)
